@@ -32,9 +32,7 @@ if not want:
         rc, out = run(p, ["all"])
         status = "silent" if rc == 0 and "VIOLATION" not in out else "ALARM"
         # behaviour-preserving patches that still raise an alarm (recorded honestly in DESIGN 10c; an alarm from any other patch fails this script)
-        known = {
-            "r3b-23-split-phases-doFastForward.diff": "KNOWN FALSE ALARM: C20 ff-ancestry / C35 ff-ancestor-check are intraprocedural; ancestry test and update now live in two phase functions",
-        }
+        known = {}  # every behaviour-preserving patch must be silent
         note = known.get(os.path.basename(p), "")
         if status == "ALARM" and not note:
             bad += 1
